@@ -308,11 +308,10 @@ func cmpView(where string, x, y objView, mapB func(string) string, lm bool) (ds 
 		if x.GetReadErr != y.GetReadErr {
 			add("get", "read-error", x.GetReadErr, y.GetReadErr)
 		}
-		if x.GetETag != y.GetETag {
-			add("get", "etag", x.GetETag, y.GetETag)
-		}
 		if x.GetVID != mapB(y.GetVID) {
 			add("get", "version-id", x.GetVID, y.GetVID+"(->"+mapB(y.GetVID)+")")
+		} else if x.GetETag != y.GetETag {
+			add("get", "etag", x.GetETag, y.GetETag)
 		}
 	}
 	return
